@@ -6,6 +6,105 @@ From Coq Require Import Lia Permutation.
 
 Set Implicit Arguments.
 
+(* ---------------- generic list facts ---------------- *)
+Lemma flat_map_flat_map A B C (f : B -> list C) (g : A -> list B) (l : list A) :
+  flat_map f (flat_map g l) = flat_map (fun x => flat_map f (g x)) l.
+Proof.
+  induction l as [|x l IH]; cbn [flat_map]; [reflexivity|]. rewrite flat_map_app. now f_equal.
+Qed.
+
+Lemma map_flat_map A B C (f : B -> C) (g : A -> list B) (l : list A) :
+  map f (flat_map g l) = flat_map (fun x => map f (g x)) l.
+Proof.
+  induction l as [|x l IH]; cbn [flat_map]; [reflexivity|]. rewrite map_app. now f_equal.
+Qed.
+
+Lemma flat_map_nil A B (F : A -> list B) (l : list A) :
+  (forall y, In y l -> F y = []) -> flat_map F l = [].
+Proof.
+  induction l as [|x l IH]; intros H; cbn [flat_map]; [reflexivity|].
+  rewrite (H x) by now left. apply IH. intros y Hy. apply H. now right.
+Qed.
+
+Lemma flat_map_ext_in A B (F G : A -> list B) (l : list A) :
+  (forall y, In y l -> F y = G y) -> flat_map F l = flat_map G l.
+Proof.
+  induction l as [|x l IH]; intros H; cbn [flat_map]; [reflexivity|].
+  rewrite (H x) by now left. f_equal. apply IH. intros y Hy. apply H. now right.
+Qed.
+
+Lemma flat_map_single A B C (f : A -> C) (F : A -> list B) (l : list A) (x : A) :
+  NoDup (map f l) -> In x l -> (forall y, In y l -> f y <> f x -> F y = []) -> flat_map F l = F x.
+Proof.
+  induction l as [|y l IH]; intros Hnd Hin HF; [destruct Hin|].
+  cbn [map] in Hnd. inversion Hnd as [|? ? Hnin Hnd']; subst. cbn [flat_map].
+  destruct Hin as [->|Hin].
+  - rewrite flat_map_nil; [apply app_nil_r|]. intros z Hz. apply HF; [now right|].
+    intros Heq. apply Hnin. rewrite <- Heq. now apply in_map.
+  - rewrite (HF y); [|now left|].
+    + cbn [app]. apply IH; [exact Hnd'|exact Hin|]. intros z Hz. apply HF. now right.
+    + intros Heq. apply Hnin. rewrite Heq. now apply in_map.
+Qed.
+
+Lemma nodup_fst_inj A B (l : list (A * B)) k a b :
+  NoDup (map fst l) -> In (k, a) l -> In (k, b) l -> a = b.
+Proof.
+  induction l as [|[k0 c] l IH]; intros Hnd Ha Hb; [destruct Ha|].
+  cbn [map fst] in Hnd. inversion Hnd as [|? ? Hnin Hnd']; subst.
+  destruct Ha as [Ha|Ha]; destruct Hb as [Hb|Hb].
+  - congruence.
+  - injection Ha as -> ->. exfalso. apply Hnin. change k with (fst (k, b)). now apply in_map.
+  - injection Hb as -> ->. exfalso. apply Hnin. change k with (fst (k, a)). now apply in_map.
+  - now apply IH.
+Qed.
+
+Lemma bool_eq_iff (a b : bool) : (a = true <-> b = true) -> a = b.
+Proof.
+  destruct a, b; intros [H1 H2]; try reflexivity.
+  - symmetry. now apply H1.
+  - now apply H2.
+Qed.
+
+Lemma filter_split_perm A (f : A -> bool) (l : list A) :
+  Permutation l (filter f l ++ filter (fun x => negb (f x)) l).
+Proof.
+  induction l as [|x l IH]; [constructor|]. cbn [filter]. destruct (f x); cbn [negb app].
+  - now constructor.
+  - now apply Permutation_cons_app.
+Qed.
+
+Lemma to_as_filter E (m : nat) (l : list (nat * E)) :
+  map (fun e => (m, e)) (to_ m l) = filter (fun p => Nat.eqb (fst p) m) l.
+Proof.
+  unfold to_. induction l as [|[v e] l IH]; [reflexivity|]. cbn [filter fst].
+  destruct (Nat.eqb_spec v m) as [->|Hne]; cbn [map snd]; [now rewrite IH|exact IH].
+Qed.
+
+Lemma to_filter_other E (m m' : nat) (l : list (nat * E)) : m' <> m ->
+  to_ m' (filter (fun p => negb (Nat.eqb (fst p) m)) l) = to_ m' l.
+Proof.
+  intros Hne. unfold to_. induction l as [|[v e] l IH]; [reflexivity|]. cbn [filter fst].
+  destruct (Nat.eqb_spec v m) as [->|Hvm]; cbn [negb filter fst].
+  - destruct (Nat.eqb_spec m m'); [congruence|exact IH].
+  - destruct (Nat.eqb v m'); cbn [map snd]; [now rewrite IH|exact IH].
+Qed.
+
+(* grouping an adjacency list by neighbour, over a duplicate-free list of all its neighbours *)
+Lemma group_perm E (ms : list nat) : forall l : list (nat * E),
+  NoDup ms -> (forall p, In p l -> In (fst p) ms) ->
+  Permutation (flat_map (fun m => map (fun e => (m, e)) (to_ m l)) ms) l.
+Proof.
+  induction ms as [|m ms IH]; intros l Hnd Hin.
+  - destruct l as [|p l]; [constructor|]. destruct (Hin p (or_introl eq_refl)).
+  - inversion Hnd as [|? ? Hnin Hnd']; subst. cbn [flat_map]. rewrite to_as_filter.
+    eapply perm_trans; [|apply Permutation_sym, (filter_split_perm (fun p => Nat.eqb (fst p) m))].
+    apply Permutation_app_head.
+    rewrite (flat_map_ext_in _ (fun m' => map (fun e => (m', e)) (to_ m' (filter (fun p => negb (Nat.eqb (fst p) m)) l)))).
+    + apply IH; [exact Hnd'|]. intros p Hp. apply filter_In in Hp. destruct Hp as [Hp Hf].
+      destruct (Hin p Hp) as [Heq|Hms]; [|exact Hms]. rewrite <- Heq, Nat.eqb_refl in Hf. discriminate.
+    + intros m' Hm'. rewrite to_filter_other; [reflexivity|]. intros ->. contradiction.
+Qed.
+
 Section SerdeProof.
   Variables K V E : Type.
   Variable keqb : K -> K -> bool.
@@ -265,6 +364,316 @@ Section SerdeProof.
       + rewrite !Hcf, Hc. exact Hbad.
   Qed.
 
+  (* ---------------- a successful rebuild, by keys ---------------- *)
+  Lemma rebuild_nodes_nodes_in l : forall h g kv,
+    In kv (nodes (fst (rebuild_nodes keqb h g l))) -> In kv (nodes h) \/ In kv l.
+  Proof.
+    induction l as [|[k v] l IH]; intros h g kv Hin.
+    - cbn [rebuild_nodes fst] in Hin. now left.
+    - cbn [rebuild_nodes] in Hin. destruct (g_contains keqb g k).
+      + apply IH in Hin. destruct Hin as [H|H]; [now left|right; now right].
+      + apply IH in Hin. destruct Hin as [H|H]; [|right; now right].
+        unfold alloc in H. cbn [nodes] in H. apply in_app_or in H.
+        destruct H as [H|[<-|[]]]; [now left|right; now left].
+  Qed.
+
+  (* adjacency lists read through keys *)
+  Definition keyed h (l : list (nat * E)) : list (option K * E) :=
+    map (fun p => (keyof h (fst p), snd p)) l.
+  Definition kouts (k : K) (es : list (K * K * E)) : list (option K * E) :=
+    flat_map (fun x => if keqb (fst (fst x)) k then [(Some (snd (fst x)), snd x)] else []) es.
+  Definition kins (k : K) (es : list (K * K * E)) : list (option K * E) :=
+    flat_map (fun x => if keqb (snd (fst x)) k then [(Some (fst (fst x)), snd x)] else []) es.
+
+  Lemma keyed_app h l1 l2 : keyed h (l1 ++ l2) = keyed h l1 ++ keyed h l2.
+  Proof. apply map_app. Qed.
+
+  Lemma g_get_key h g k u : GraphOK h g -> g_get keqb g k = Some u -> keyof h u = Some k.
+  Proof. intros (_ & Hb) Hg. apply (g_get_some_in Hk) in Hg. now apply Hb in Hg. Qed.
+
+  Lemma keyed_out_step h g k u es :
+    GraphOK h g -> g_get keqb g k = Some u ->
+    (forall s t e, In (s, t, e) es -> g_contains keqb g s = true /\ g_contains keqb g t = true) ->
+    keyed h (flat_map (out_step g u) es) = kouts k es.
+  Proof.
+    intros HG Hu. induction es as [|[[s t] e] es IH]; intros Hes; [reflexivity|].
+    cbn [flat_map]. rewrite keyed_app, IH by (intros s' t' e' Hin; apply (Hes s' t' e'); now right).
+    unfold kouts at 2. cbn [flat_map fst snd]. fold (kouts k es). f_equal.
+    destruct (Hes s t e (or_introl eq_refl)) as [Hs Ht].
+    apply g_contains_get in Hs. destruct Hs as [a Hs]. apply g_contains_get in Ht. destruct Ht as [b Ht].
+    unfold out_step. rewrite Hs, Ht. destruct (Nat.eqb_spec a u) as [->|Hne].
+    - pose proof (g_get_key _ HG Hs) as H1. pose proof (g_get_key _ HG Hu) as H2.
+      rewrite H1 in H2. injection H2 as ->. rewrite (keqb_rfl Hk).
+      unfold keyed. cbn [map fst snd]. now rewrite (g_get_key _ HG Ht).
+    - destruct (keqb s k) eqn:Hq; [|reflexivity]. apply Hk in Hq. subst s. congruence.
+  Qed.
+
+  Lemma keyed_in_step h g k u es :
+    GraphOK h g -> g_get keqb g k = Some u ->
+    (forall s t e, In (s, t, e) es -> g_contains keqb g s = true /\ g_contains keqb g t = true) ->
+    keyed h (flat_map (in_step g u) es) = kins k es.
+  Proof.
+    intros HG Hu. induction es as [|[[s t] e] es IH]; intros Hes; [reflexivity|].
+    cbn [flat_map]. rewrite keyed_app, IH by (intros s' t' e' Hin; apply (Hes s' t' e'); now right).
+    unfold kins at 2. cbn [flat_map fst snd]. fold (kins k es). f_equal.
+    destruct (Hes s t e (or_introl eq_refl)) as [Hs Ht].
+    apply g_contains_get in Hs. destruct Hs as [a Hs]. apply g_contains_get in Ht. destruct Ht as [b Ht].
+    unfold in_step. rewrite Hs, Ht. destruct (Nat.eqb_spec b u) as [->|Hne].
+    - pose proof (g_get_key _ HG Ht) as H1. pose proof (g_get_key _ HG Hu) as H2.
+      rewrite H1 in H2. injection H2 as ->. rewrite (keqb_rfl Hk).
+      unfold keyed. cbn [map fst snd]. now rewrite (g_get_key _ HG Hs).
+    - destruct (keqb t k) eqn:Hq; [|reflexivity]. apply Hk in Hq. subst t. congruence.
+  Qed.
+
+  Lemma rebuild_ok_full ns es :
+    (forall s t e, In (s, t, e) es -> In s (map fst ns) /\ In t (map fst ns)) ->
+    exists h' g', rebuild keqb ns es = DeOk h' g' /\ Inv h' /\ GraphOK h' g' /\
+      (forall k, g_contains keqb g' k = true <-> In k (map fst ns)) /\
+      (forall i kv, nth_error (nodes h') i = Some kv -> In kv ns) /\
+      (forall u, outs h' u = flat_map (out_step g' u) es) /\
+      (forall v, ins h' v = flat_map (in_step g' v) es).
+  Proof.
+    intros Hdecl. rewrite rebuild_unfold. destruct (rebuild_nodes_start ns) as (HG & HI & Hc).
+    pose proof (rebuild_edges_spec_ es HG HI) as HE.
+    destruct (rebuild_nodes_mono ns (@empty_heap K V E) []) as (_ & _ & H3 & _).
+    destruct (rebuild_edges keqb _ _ es) as [h' g'|k].
+    - exists h', g'. destruct HE as (-> & HI' & Hn & Hes & Ho & Hi). split; [reflexivity|].
+      split; [exact HI'|]. split; [now apply graphok_nodes with (h := fst (rebuild_nodes keqb empty_heap [] ns))|].
+      split; [exact Hc|]. split; [|split].
+      + intros i kv Hi'. rewrite Hn in Hi'. apply nth_error_In in Hi'.
+        apply rebuild_nodes_nodes_in in Hi'. destruct Hi' as [[]|H]. exact H.
+      + intros u. rewrite Ho. destruct (H3 u) as [-> _]. reflexivity.
+      + intros v. rewrite Hi. destruct (H3 v) as [_ ->]. reflexivity.
+    - exfalso. destruct HE as (es1 & s & t & e & es2 & -> & _ & Hbad).
+      destruct (Hdecl s t e) as [H1 H2]; [apply in_or_app; right; now left|].
+      apply Hc in H1. apply Hc in H2. destruct Hbad as [[H _]|(_ & H & _)]; congruence.
+  Qed.
+
+  Lemma rebuild_keyed ns es :
+    (forall s t e, In (s, t, e) es -> In s (map fst ns) /\ In t (map fst ns)) ->
+    exists h' g', rebuild keqb ns es = DeOk h' g' /\ Inv h' /\ GraphOK h' g' /\
+      (forall k, g_contains keqb g' k = true <-> In k (map fst ns)) /\
+      (forall k u, g_get keqb g' k = Some u ->
+         (exists v, In (k, v) ns /\ valof h' u = Some v) /\
+         keyed h' (outs h' u) = kouts k es /\ keyed h' (ins h' u) = kins k es).
+  Proof.
+    intros Hdecl. destruct (@rebuild_ok_full ns es Hdecl) as (h' & g' & Hr & HI & HG & Hc & Hn & Ho & Hi).
+    exists h', g'. split; [exact Hr|]. split; [exact HI|]. split; [exact HG|]. split; [exact Hc|].
+    intros k u Hu.
+    assert (Hes : forall s t e, In (s, t, e) es -> g_contains keqb g' s = true /\ g_contains keqb g' t = true).
+    { intros s t e Hin. rewrite !Hc. now apply (Hdecl s t e). }
+    split; [|split].
+    - pose proof (g_get_key _ HG Hu) as Hku. unfold keyof in Hku. unfold valof.
+      destruct (nth_error (nodes h') u) as [[k' v]|] eqn:Hnu; [|discriminate].
+      cbn [option_map fst] in Hku. injection Hku as ->. exists v. split; [now apply (Hn u)|reflexivity].
+    - rewrite Ho. now apply keyed_out_step.
+    - rewrite Hi. now apply keyed_in_step.
+  Qed.
+
+  (* ---------------- decompose, then rebuild ---------------- *)
+  Lemma members_nodup h g : GraphOK h g -> NoDup (members g).
+  Proof.
+    intros (Hnd & Hb). unfold members. induction g as [|[k u] g IH]; [constructor|].
+    cbn [map fst snd] in *. inversion Hnd as [|? ? Hnin Hnd']; subst. constructor.
+    - intros Hin. apply in_map_iff in Hin. destruct Hin as ([k' u'] & Hu & Hin). cbn [snd] in Hu. subst u'.
+      destruct (Hb k u (or_introl eq_refl)) as [H1 _]. destruct (Hb k' u (or_intror Hin)) as [H2 _].
+      rewrite H1 in H2. injection H2 as <-. apply Hnin. change k with (fst (k, u)). now apply in_map.
+    - apply IH; [exact Hnd'|]. intros k0 u0 Hin. apply Hb. now right.
+  Qed.
+
+  Definition dnodes h (ms : list nat) : list (K * V) :=
+    flat_map (fun u => match nth_error (nodes h) u with Some kv => [kv] | None => [] end) ms.
+  Definition dedges_to h (ku : K) (l : list (nat * E)) : list (K * K * E) :=
+    flat_map (fun p => match keyof h (fst p) with Some kv => [(ku, kv, snd p)] | None => [] end) l.
+  Definition dedges_of h (u : nat) : list (K * K * E) :=
+    match keyof h u with Some ku => dedges_to h ku (outs h u) | None => [] end.
+
+  Lemma decompose_eq h g order :
+    decompose keqb h g order =
+    (dnodes h (g_iter keqb g order), flat_map (dedges_of h) (g_iter keqb g order)).
+  Proof. reflexivity. Qed.
+
+  Lemma kouts_dedges_same h k l :
+    (forall p, In p l -> exists kv, keyof h (fst p) = Some kv) ->
+    kouts k (dedges_to h k l) = keyed h l.
+  Proof.
+    induction l as [|p l IH]; intros Hl; [reflexivity|].
+    unfold dedges_to. cbn [flat_map]. fold (dedges_to h k l).
+    destruct (Hl p (or_introl eq_refl)) as [kv Hkv]. rewrite Hkv.
+    unfold kouts. cbn [app flat_map fst snd]. fold (kouts k (dedges_to h k l)).
+    rewrite (keqb_rfl Hk), IH by (intros q Hq; apply Hl; now right).
+    unfold keyed. cbn [map app]. now rewrite Hkv.
+  Qed.
+
+  Lemma kouts_dedges_other h k km l : km <> k -> kouts k (dedges_to h km l) = [].
+  Proof.
+    intros Hne. unfold kouts. apply flat_map_nil. intros x Hx. unfold dedges_to in Hx.
+    apply in_flat_map in Hx. destruct Hx as (p & _ & Hx).
+    destruct (keyof h (fst p)) as [kv|]; [|destruct Hx]. destruct Hx as [<-|[]].
+    cbn [fst]. now rewrite (keqb_neq Hk).
+  Qed.
+
+  Lemma kins_dedges h k u km l :
+    (forall p, In p l -> exists kv, keyof h (fst p) = Some kv /\ (kv = k <-> fst p = u)) ->
+    kins k (dedges_to h km l) = map (fun e => (Some km, e)) (to_ u l).
+  Proof.
+    induction l as [|p l IH]; intros Hl; [reflexivity|].
+    unfold dedges_to. cbn [flat_map]. fold (dedges_to h km l).
+    destruct (Hl p (or_introl eq_refl)) as (kv & Hkv & Hiff). rewrite Hkv.
+    unfold kins. cbn [app flat_map fst snd]. fold (kins k (dedges_to h km l)).
+    rewrite IH by (intros q Hq; apply Hl; now right).
+    unfold to_. cbn [filter]. destruct (Nat.eqb_spec (fst p) u) as [Hpu|Hpu].
+    - apply Hiff in Hpu. subst kv. rewrite (keqb_rfl Hk). reflexivity.
+    - rewrite (keqb_neq Hk); [reflexivity|]. intros Heq. apply Hpu. now apply Hiff.
+  Qed.
+
+  Lemma kouts_flat_map A k (G : A -> list (K * K * E)) (l : list A) :
+    kouts k (flat_map G l) = flat_map (fun m => kouts k (G m)) l.
+  Proof. apply flat_map_flat_map. Qed.
+
+  Lemma kins_flat_map A k (G : A -> list (K * K * E)) (l : list A) :
+    kins k (flat_map G l) = flat_map (fun m => kins k (G m)) l.
+  Proof. apply flat_map_flat_map. Qed.
+
+  Section Roundtrip.
+    Variable h : heap.
+    Variable g : graph K.
+    Variable order : list K.
+    Hypothesis HI : Inv h.
+    Hypothesis HG : GraphOK h g.
+    Hypothesis HC : Closed h g.
+    Hypothesis HO : OrderOK g order.
+
+    Let ms := g_iter keqb g order.
+    Let des := flat_map (dedges_of h) ms.
+
+    Lemma ms_perm : Permutation ms (members g).
+    Proof. unfold ms. eapply g_iter_perm; eauto. Qed.
+
+    Lemma ms_nodup : NoDup ms.
+    Proof.
+      apply Permutation_NoDup with (l := members g); [apply Permutation_sym, ms_perm|].
+      now apply members_nodup with (h := h).
+    Qed.
+
+    Lemma ms_in m : In m ms <-> In m (members g).
+    Proof.
+      split; apply Permutation_in; [apply ms_perm|apply Permutation_sym, ms_perm].
+    Qed.
+
+    Lemma member_key m : In m (members g) -> exists k, In (k, m) g /\ keyof h m = Some k.
+    Proof.
+      intros Hin. apply in_map_iff in Hin. destruct Hin as ([k m'] & Hm & Hin). cbn [snd] in Hm. subst m'.
+      exists k. split; [exact Hin|]. now apply HG in Hin.
+    Qed.
+
+    Lemma pair_node k m : In (k, m) g -> exists v, nth_error (nodes h) m = Some (k, v).
+    Proof.
+      intros Hin. apply HG in Hin. destruct Hin as [Hkm _]. unfold keyof in Hkm.
+      destruct (nth_error (nodes h) m) as [[k' v]|]; [|discriminate].
+      cbn [option_map fst] in Hkm. injection Hkm as ->. now exists v.
+    Qed.
+
+    Lemma pair_unique k m m' : In (k, m) g -> In (k, m') g -> m = m'.
+    Proof. destruct HG as [Hnd _]. now apply nodup_fst_inj. Qed.
+
+    Lemma dnodes_in k v :
+      In (k, v) (dnodes h ms) <-> exists m, In (k, m) g /\ nth_error (nodes h) m = Some (k, v).
+    Proof.
+      unfold dnodes. rewrite in_flat_map. split.
+      - intros (m & Hm & Hin). destruct (nth_error (nodes h) m) as [kv|] eqn:Hn; [|destruct Hin].
+        destruct Hin as [->|[]]. exists m. split; [|exact Hn].
+        apply ms_in, member_key in Hm. destruct Hm as (k' & Hin & Hkey).
+        unfold keyof in Hkey. rewrite Hn in Hkey. cbn [option_map fst] in Hkey. now injection Hkey as <-.
+      - intros (m & Hin & Hn). exists m. split.
+        + apply ms_in. unfold members. change m with (snd (k, m)). now apply in_map.
+        + rewrite Hn. now left.
+    Qed.
+
+    Lemma dnodes_keys k : In k (map fst (dnodes h ms)) <-> g_contains keqb g k = true.
+    Proof.
+      rewrite (g_contains_true Hk). split.
+      - intros Hin. apply in_map_iff in Hin. destruct Hin as ([k' v] & Hk' & Hin). cbn [fst] in Hk'. subst k'.
+        apply dnodes_in in Hin. destruct Hin as (m & Hin & _). change k with (fst (k, m)). now apply in_map.
+      - intros Hin. apply in_map_iff in Hin. destruct Hin as ([k' m] & Hk' & Hin). cbn [fst] in Hk'. subst k'.
+        destruct (pair_node _ _ Hin) as [v Hn]. change k with (fst (k, v)). apply in_map.
+        apply dnodes_in. now exists m.
+    Qed.
+
+    Lemma target_key m p : In m (members g) -> In p (outs h m) ->
+      exists kv, In (kv, fst p) g /\ keyof h (fst p) = Some kv.
+    Proof.
+      intros Hm Hp. apply member_key. destruct p as [v e]. destruct (HC m Hm) as [H1 _]. now apply H1 in Hp.
+    Qed.
+
+    Lemma dedges_in s t e : In (s, t, e) des -> g_contains keqb g s = true /\ g_contains keqb g t = true.
+    Proof.
+      unfold des. rewrite in_flat_map. intros (m & Hm & Hin). apply ms_in in Hm.
+      destruct (member_key _ Hm) as (km & Hkm & Hkey). unfold dedges_of in Hin. rewrite Hkey in Hin.
+      unfold dedges_to in Hin. apply in_flat_map in Hin. destruct Hin as (p & Hp & Hin).
+      destruct (target_key _ _ Hm Hp) as (kv & Hkv & Hkeyv). rewrite Hkeyv in Hin.
+      destruct Hin as [[= <- <- <-]|[]]. rewrite !(g_contains_true Hk). split.
+      - change km with (fst (km, m)). now apply in_map.
+      - change kv with (fst (kv, fst p)). now apply in_map.
+    Qed.
+
+    Lemma dedges_decl s t e : In (s, t, e) des ->
+      In s (map fst (dnodes h ms)) /\ In t (map fst (dnodes h ms)).
+    Proof. intros Hin. rewrite !dnodes_keys. now apply (dedges_in s t e). Qed.
+
+    Lemma kouts_des k u : In (k, u) g -> kouts k des = keyed h (outs h u).
+    Proof.
+      intros Hin. assert (Hm : In u (members g)) by (change u with (snd (k, u)); now apply in_map).
+      assert (Hku : keyof h u = Some k) by now apply HG in Hin.
+      unfold des. rewrite kouts_flat_map.
+      rewrite (@flat_map_single _ _ _ (fun x : nat => x) (fun m => kouts k (dedges_of h m)) ms u).
+      - unfold dedges_of. rewrite Hku. apply kouts_dedges_same. intros p Hp.
+        destruct (target_key _ _ Hm Hp) as (kv & _ & Hkv). now exists kv.
+      - rewrite map_id. apply ms_nodup.
+      - now apply ms_in.
+      - intros m Hm' Hne. apply ms_in in Hm'. destruct (member_key _ Hm') as (km & Hkm & Hkey).
+        unfold dedges_of. rewrite Hkey. apply kouts_dedges_other. intros ->. apply Hne.
+        now apply pair_unique with (k := k).
+    Qed.
+
+    Lemma kins_des k u : In (k, u) g -> Permutation (kins k des) (keyed h (ins h u)).
+    Proof.
+      intros Hin. assert (Hm : In u (members g)) by (change u with (snd (k, u)); now apply in_map).
+      assert (Hku : keyof h u = Some k) by now apply HG in Hin.
+      unfold des. rewrite kins_flat_map.
+      rewrite (flat_map_ext_in _ (fun m => map (fun p => (keyof h (fst p), snd p)) (map (fun e => (m, e)) (to_ m (ins h u))))).
+      - rewrite <- map_flat_map. unfold keyed. apply Permutation_map. apply group_perm; [apply ms_nodup|].
+        intros [v e] Hp. cbn [fst]. apply ms_in. destruct (HC u Hm) as [_ H2]. now apply H2 in Hp.
+      - intros m Hm'. apply ms_in in Hm'. destruct (member_key _ Hm') as (km & Hkm & Hkey).
+        unfold dedges_of. rewrite Hkey, map_map. cbn [fst snd]. rewrite Hkey.
+        destruct HI as (HM & _ & HInj). rewrite <- HM. apply kins_dedges. intros p Hp.
+        destruct (target_key _ _ Hm' Hp) as (kv & _ & Hkv). exists kv. split; [exact Hkv|]. split.
+        + intros ->. now apply HInj with (k := k).
+        + intros Hpu. rewrite Hpu in Hkv. congruence.
+    Qed.
+
+    Lemma roundtrip_common :
+      exists h' g', rebuild keqb (fst (decompose keqb h g order)) (snd (decompose keqb h g order)) = DeOk h' g' /\
+        Inv h' /\ GraphOK h' g' /\
+        (forall k, g_contains keqb g' k = g_contains keqb g k) /\
+        (forall k u u', g_get keqb g k = Some u -> g_get keqb g' k = Some u' ->
+           valof h' u' = valof h u /\
+           keyed h' (outs h' u') = keyed h (outs h u) /\
+           Permutation (keyed h' (ins h' u')) (keyed h (ins h u))).
+    Proof.
+      rewrite decompose_eq. cbn [fst snd]. fold ms. fold des.
+      destruct (@rebuild_keyed (dnodes h ms) des dedges_decl) as (h' & g' & Hr & HI' & HG' & Hc & Hget).
+      exists h', g'. split; [exact Hr|]. split; [exact HI'|]. split; [exact HG'|]. split.
+      - intros k. apply bool_eq_iff. rewrite Hc. apply dnodes_keys.
+      - intros k u u' Hu Hu'. apply (g_get_some_in Hk) in Hu.
+        destruct (Hget k u' Hu') as ((v & Hv & Hval) & Ho & Hi). split; [|split].
+        + rewrite Hval. apply dnodes_in in Hv. destruct Hv as (m & Hm & Hn).
+          rewrite (pair_unique _ _ _ Hu Hm). unfold valof. now rewrite Hn.
+        + rewrite Ho. now apply kouts_des.
+        + rewrite Hi. now apply kins_des.
+    Qed.
+  End Roundtrip.
+
   (* ---------------- the required theorems ---------------- *)
   (* NOTE: the hypothesis [Full] (third premise) is added: see rebuild_nodes_needs_full *)
   Theorem rebuild_nodes_spec : forall l h g, GraphOK h g -> Inv h ->
@@ -339,6 +748,32 @@ Section SerdeProof.
     destruct (rebuild keqb n e) as [h g|k] eqn:Hr; [|now left]. right. exists h, g.
     apply rebuild_ok_inv in Hr. tauto.
   Qed.
+  Theorem roundtrip_directed : forall h g order, Inv h -> GraphOK h g -> Closed h g -> OrderOK g order ->
+    exists h' g', rebuild keqb (fst (decompose keqb h g order)) (snd (decompose keqb h g order)) = DeOk h' g' /\ Inv h' /\ GraphOK h' g' /\
+      (forall k, g_contains keqb g' k = g_contains keqb g k) /\
+      (forall k u u', g_get keqb g k = Some u -> g_get keqb g' k = Some u' ->
+         valof h' u' = valof h u /\
+         map (fun p => (keyof h' (fst p), snd p)) (outs h' u') = map (fun p => (keyof h (fst p), snd p)) (outs h u)).
+  Proof.
+    intros h g order HI HG HC HO.
+    destruct (roundtrip_common HI HG HC HO) as (h' & g' & Hr & HI' & HG' & Hc & Hget).
+    exists h', g'. split; [exact Hr|]. split; [exact HI'|]. split; [exact HG'|]. split; [exact Hc|].
+    intros k u u' Hu Hu'. destruct (Hget k u u' Hu Hu') as (H1 & H2 & _). split; [exact H1|exact H2].
+  Qed.
+
+  Theorem roundtrip_undirected : forall h g order, Inv h -> GraphOK h g -> Closed h g -> OrderOK g order ->
+    exists h' g', rebuild keqb (fst (decompose keqb h g order)) (snd (decompose keqb h g order)) = DeOk h' g' /\ Inv h' /\ GraphOK h' g' /\
+      (forall k, g_contains keqb g' k = g_contains keqb g k) /\
+      (forall k u u', g_get keqb g k = Some u -> g_get keqb g' k = Some u' ->
+         valof h' u' = valof h u /\
+         Permutation (map (fun p => (keyof h' (fst p), snd p)) (outs h' u' ++ ins h' u')) (map (fun p => (keyof h (fst p), snd p)) (outs h u ++ ins h u))).
+  Proof.
+    intros h g order HI HG HC HO.
+    destruct (roundtrip_common HI HG HC HO) as (h' & g' & Hr & HI' & HG' & Hc & Hget).
+    exists h', g'. split; [exact Hr|]. split; [exact HI'|]. split; [exact HG'|]. split; [exact Hc|].
+    intros k u u' Hu Hu'. destruct (Hget k u u' Hu Hu') as (H1 & H2 & H3). split; [exact H1|].
+    rewrite !map_app. apply Permutation_app; [|exact H3]. unfold keyed in H2. rewrite H2. apply Permutation_refl.
+  Qed.
 End SerdeProof.
 
 Print Assumptions rebuild_nodes_spec.
@@ -347,3 +782,5 @@ Print Assumptions rebuild_edges_spec.
 Print Assumptions rebuild_ok_inv.
 Print Assumptions rebuild_err_iff.
 Print Assumptions deserialize_total.
+Print Assumptions roundtrip_directed.
+Print Assumptions roundtrip_undirected.
